@@ -268,6 +268,11 @@ def run_design(keys, tier):
             if not r.ok:
                 raise Broken("design model %s/%s fails: %s\n%s" % (module, cfg, r.violated or r.error, r.trace_text[:3000]))
             done.append({"model": cfg, "states": r.distinct, "transitions": r.generated, "wall_s": round(r.wall, 1)})
+        if key == "levels":
+            # the same lemmas without bounds and for any factorisation of the deepest level (LevelArithInt.tla, Apalache, length 0)
+            w = vlib.run_apalache("LevelArithInt", "Init", "Inv", 0)
+            done.append({"model": "LevelArithInt.tla (Apalache: Init => CentreWithinDeviation /\\ AcceptedBand /\\ AddrIsPixel, no bounds)",
+                         "states": 0, "transitions": 0, "wall_s": w})
     return done
 
 
